@@ -411,7 +411,7 @@ PROPS["C05"] = dict(
 PROPS["C04"] = dict(
     suites=["c04", "c03b"],
     shards={"c04": 4},
-    lean_modules=["ServlinVerif.Props.C04", "ServlinVerif.Props.C05", "ServlinVerif.Props.C04Pipeline"],
+    lean_modules=["ServlinVerif.Props.C04", "ServlinVerif.Props.C05", "ServlinVerif.Props.C04Pipeline", "ServlinVerif.Props.C04Steps"],
     audit="Audit/C04.lean",
     rule="HttpServerBuilder::spawn on loopback with a scripted handler (behaviour looked up by request path; every call logged): 700 (6000) "
          "sequences of 1..12 requests drawn from {no body, small body, body above the in-memory threshold, Expect: 100-continue, unknown-length "
@@ -557,6 +557,7 @@ ADD = {
                     "exactly the body bytes sent, exactly the serialised answer on the wire, exactly the following bytes left unread), C04_pipeline (any number of such requests back to back, whatever follows: "
                     "one call per request in order, the responses in order, connection ready again), C04_pipeline_eof (to the end of the connection); good_plain / good_plain_length show the hypotheses are met by "
                     "ordinary requests; a concrete two-request pipeline is evaluated by the kernel.",
+        level_note="Props/C04Steps.lean generalises the pipeline theorem to exchanges of different kinds (Step / C04_pipeline_steps), with the fetched-body exchange (exactly two handler runs, the second with the complete body, file gone afterwards: step_upload) as an instance, and C04_pipeline_steps_then_error (after a failing exchange nothing that follows is interpreted).",
         level_text=" The per-exchange theorems are lifted to whole pipelines of requests of unbounded length (C04_pipeline) for requests without interim responses, uploads to file or refusals."),
     "C05": dict(
         rule="Client scripts now also: explicit zero length followed by a second request, chunked together with a zero length, Expect without length.",
